@@ -14,7 +14,7 @@ import (
 
 // ---------------------------------------------------------------------------------- C12
 
-const ruleC12 = "model-based state machine with an id-centred mix: generated and supplied ids, duplicates inside a batch and against stored ids, malformed ids (empty, short, long, non-hex, non-string), upper-case spellings, the same ids in two collections, Save with and without id, ReplaceById with a mismatching id, UpdateById/Update/UpdateFunc that set _id to a free, taken or malformed value. Oracle: model (fresh valid UUID for a missing id, supplied id kept, ErrDuplicateKey / error and no change), and after every step for every id ever used FindById(c,id) is nil or a document whose _id is id, scans and FindById agree, no unaddressed document changed (an update that rewrites _id may fail or re-key: validity predicate, then resync). An evaluation is one step; non-trivial when the step involves a colliding, malformed, generated or rewritten id; distinct = distinct (operation, model state)."
+const ruleC12 = "model-based state machine with an id-centred mix: generated and supplied ids, duplicates inside a batch (also at position 1000+ of batches of 1001-2500 documents) and against stored ids, malformed ids (empty, short, long, non-hex, non-string), upper-case spellings, the same ids in two collections, Save with and without id, ReplaceById with a mismatching id, UpdateById/Update/UpdateFunc that set _id to a free, taken or malformed value. Oracle: model (fresh valid UUID for a missing id, supplied id kept, ErrDuplicateKey / error and no change), and after every step for every id ever used FindById(c,id) is nil or a document whose _id is id, scans and FindById agree, no unaddressed document changed (an update that rewrites _id may fail or re-key: validity predicate, then resync). An evaluation is one step; non-trivial when the step involves a colliding, malformed, generated or rewritten id; distinct = distinct (operation, model state)."
 
 func c12Profile() *sm.Profile {
 	return &sm.Profile{
@@ -28,7 +28,7 @@ func c12Profile() *sm.Profile {
 		BadIds:      true,
 		IdRewrite:   true,
 		Crit:        gen.CritEnv{Val: gen.ValCfg{MaxDepth: 0}, MaxDepth: 2, Fields: []string{"x", "y", "u", "_id"}},
-		Weights: []sm.W{{Kind: "createcoll", Weight: 4}, {Kind: "insert", Weight: 16}, {Kind: "insertone", Weight: 6}, {Kind: "save", Weight: 10},
+		Weights: []sm.W{{Kind: "biginsert", Weight: 1}, {Kind: "createcoll", Weight: 4}, {Kind: "insert", Weight: 16}, {Kind: "insertone", Weight: 6}, {Kind: "save", Weight: 10},
 			{Kind: "replace", Weight: 8}, {Kind: "updatebyid", Weight: 12}, {Kind: "update", Weight: 8}, {Kind: "updatefunc", Weight: 8},
 			{Kind: "deletebyid", Weight: 4}, {Kind: "createindex", Weight: 4}, {Kind: "dropindex", Weight: 1}, {Kind: "findbyid", Weight: 6}},
 	}
@@ -114,7 +114,7 @@ func TestC12(t *testing.T) {
 
 // ---------------------------------------------------------------------------------- C13
 
-const ruleC13 = "model-based state machine over a name alphabet with prefix-related, dotted, colon, unicode and empty collection names, 2-5 live collections sharing the same ids, all operation kinds including indexes and drops. After every step: ListCollections (as a set) and HasCollection for every name of the alphabet equal the model, sentinel errors are exact, and every collection - in particular every one other than the operated one - has exactly the model's documents, index list and Count. An evaluation is one step; non-trivial when the operated collection has a live sibling whose name is prefix-related to it or that shares an id with it; distinct = distinct (operation, model state)."
+const ruleC13 = "model-based state machine over a name alphabet with prefix-related, dotted, colon, unicode and empty collection names, 2-5 live collections sharing the same ids, all operation kinds including indexes and drops. After every step: ListCollections (as a set) and HasCollection for every name of the alphabet equal the model, sentinel errors are exact, and every collection - in particular every one other than the operated one - has exactly the model's documents, index list and Count. An evaluation is one step; non-trivial when the operated collection has a live sibling whose name is prefix-related to it or that shares an id with it; distinct = distinct (operation, model state). A second part races 2-5 concurrent creators of one name (CreateCollection, CreateCollectionByQuery, ImportCollection; schedule perturbed at every store call): at most one may succeed, the others fail with ErrCollectionExist (or a store conflict) without side effects, and the full state (contents, counters, raw key audit) equals the winner's; every race counts as one non-trivial evaluation."
 
 var c13Names = []string{"A", "B", "a", "ab", "a.b", "a:b", "c", "coll", "é", "", "a b", "c:a"}
 
@@ -151,6 +151,34 @@ func related(a, b string) bool {
 }
 
 func TestC13(t *testing.T) {
+	t.Run("race", func(t *testing.T) {
+		col := collector("C13", ruleC13)
+		check(t, "C13", cases(250, 6000), 0, func(rt *rapid.T) {
+			c := &c13RaceCase{Backend: rapid.SampledFrom([]string{run.Bbolt, run.BadgerMem}).Draw(rt, "backend")}
+			n := rapid.IntRange(1, 6).Draw(rt, "ndocs")
+			for i := 0; i < n; i++ {
+				c.Docs = append(c.Docs, cs.Doc{"_id": gen.Id(i), "x": int64(rapid.IntRange(0, 3).Draw(rt, "x")), "u": int64(i)})
+			}
+			if rapid.Bool().Draw(rt, "indexed") {
+				c.Index = "x"
+			}
+			for i := rapid.IntRange(2, 5).Draw(rt, "nracers"); i > 0; i-- {
+				c.Racers = append(c.Racers, rapid.SampledFrom([]string{"createcoll", "createbyquery", "createbyquery", "import", "import"}).Draw(rt, "racer"))
+			}
+			for i := rapid.IntRange(0, 4).Draw(rt, "nfile"); i > 0; i-- {
+				c.FileIds = append(c.FileIds, len(c.FileIds))
+			}
+			c.Bits = rapid.SliceOfN(rapid.Byte(), 8, 48).Draw(rt, "schedule-bits")
+			if f := runC13Race(c); f != nil {
+				violate(rt, "C13", "c13race", c, f)
+			}
+			col.Case(true, hashOf(c), func() interface{} { return c }, "catalog-race", "backend:"+c.Backend)
+		})
+	})
+	t.Run("histories", testC13Histories)
+}
+
+func testC13Histories(t *testing.T) {
 	(&smCheck{property: "C13", kind: "c13", rule: ruleC13, quick: 2000, thorough: 50000, stepsQ: 20, stepsT: 30,
 		backends: []string{run.Bbolt, run.Bbolt, run.BadgerMem},
 		profile:  func(rt *rapid.T) *sm.Profile { return c13Profile() },
@@ -193,7 +221,7 @@ func TestC13(t *testing.T) {
 
 // ---------------------------------------------------------------------------------- C14
 
-const ruleC14 = "model-based state machine on one or two collections over an index-field alphabet with prefix pairs (x/xy) and dotted sub-paths (n/n.a/n.b), CreateIndex/DropIndex/HasIndex/ListIndexes interleaved with writes. After every step ListIndexes and HasIndex for every field equal the model (sentinels exact, including on missing collections); after every catalog change every surviving index must answer an ascending and a descending ordered scan and range/equality queries around a stored value exactly like the model. An evaluation is one step; non-trivial when the step creates or drops an index while a sibling index with a prefix/dotted relation exists; distinct = distinct (operation, model state)."
+const ruleC14 = "model-based state machine on one or two collections over an index-field alphabet with prefix pairs (x/xy) and dotted sub-paths (n/n.a/n.b), CreateIndex/DropIndex/HasIndex/ListIndexes interleaved with writes. After every step ListIndexes and HasIndex for every field equal the model (sentinels exact, including on missing collections); after every catalog change every surviving index must answer an ascending and a descending ordered scan and range/equality queries around a stored value exactly like the model. An evaluation is one step; non-trivial when the step creates or drops an index while a sibling index with a prefix/dotted relation exists; distinct = distinct (operation, model state). A second part races concurrent CreateIndex / DropIndex of the same fields with writes and queries (schedule perturbed at every store call) and requires the history, including a sequential epilogue of ListIndexes and index-ordered scans, to be linearizable."
 
 var c14Fields = []string{"x", "xy", "n", "n.a", "n.b", "y", "s", "_id"}
 
@@ -230,6 +258,20 @@ func fieldRelated(a, b string) bool {
 }
 
 func TestC14(t *testing.T) {
+	t.Run("histories", testC14Histories)
+	t.Run("concurrent", func(t *testing.T) {
+		// the index catalog under concurrent CreateIndex / DropIndex of the same fields
+		col := collector("C14", ruleC14)
+		check(t, "C14", cases(60, 1500), 0, func(rt *rapid.T) {
+			h, verdict := concurrentCase(rt, "C14", []string{"createindex", "createindex", "createindex", "dropindex", "dropindex", "insert", "updatebyid", "find"})
+			col.Case(overlapWrite(h), hashOf(h.Setup, len(h.Ops), h.Ops[0].Op), func() interface{} {
+				return map[string]interface{}{"mode": "concurrent", "backend": h.Backend, "operations": len(h.Ops), "verdict": verdict}
+			}, "concurrent", "verdict:"+verdict)
+		})
+	})
+}
+
+func testC14Histories(t *testing.T) {
 	(&smCheck{property: "C14", kind: "c14", rule: ruleC14, quick: 2000, thorough: 50000, stepsQ: 20, stepsT: 30,
 		backends: []string{run.Bbolt, run.Bbolt, run.BadgerMem},
 		profile:  func(rt *rapid.T) *sm.Profile { return c14Profile() },
